@@ -322,7 +322,19 @@ func (s *Scope) el(n Node) TExpr {
 		if n.Forall {
 			q = "forall"
 		}
-		return TExpr{E: fmt.Sprintf("(%s (%s) %s)", q, strings.Join(bs, " "), body.E), Sort: "Bool"}
+		be := body.E
+		if len(n.Patterns) > 0 {
+			var ps []string
+			for _, pat := range n.Patterns {
+				var ts []string
+				for _, t := range pat {
+					ts = append(ts, c.el(t).E)
+				}
+				ps = append(ps, ":pattern ("+strings.Join(ts, " ")+")")
+			}
+			be = "(! " + be + " " + strings.Join(ps, " ") + ")"
+		}
+		return TExpr{E: fmt.Sprintf("(%s (%s) %s)", q, strings.Join(bs, " "), be), Sort: "Bool"}
 	case *NField:
 		return s.elField(n)
 	case *NIndex:
